@@ -99,7 +99,7 @@ fn gen_any(r: &mut Rng, d: usize) -> Expression {
 }
 
 pub fn run(ctx: &Ctx, rep: &mut Report) {
-    let n = ctx.pick(20_000, 2_000_000);
+    let n = ctx.pick(20_000, 10_000_000);
     par_cases(ctx, "tree", n, rep, |i, rep| {
         let mut r = Rng::for_case(ctx.seed, "tree", i);
         // mostly action-free leaves so that a single action decides the answer
@@ -152,7 +152,7 @@ pub fn run(ctx: &Ctx, rep: &mut Report) {
                 }
                 if depth(&e) >= 3 && (off_left_spine(&e, &|x| my_action(x)) || off_left_spine(&e, &|x| my_frames(x) == Some(true))) {
                     rep.nontrivial(&format!("{:?}", e));
-                    if rep.samples.len() < 4 && depth(&e) <= 4 {
+                    if rep.samples.len() < 4 && depth(&e) <= 5 {
                         rep.sample(J::obj(vec![("tree", J::s(format!("{:?}", e).split_whitespace().collect::<Vec<_>>().join(" "))), ("action", J::Bool(ga)), ("complex_frames", J::Bool(gf))]));
                     }
                 }
